@@ -315,6 +315,64 @@ theorem C08_retry_boundary_instances :
         (List.replicate 10 .ok ++ List.replicate 80 (.err 16))).fs = [([1], [5])] := by
   decide
 
+/-! ## Wrappers: a content failure happens before any temp exists -/
+
+/-- **Serialise before temp.** When turning the value into bytes fails (at the start, in the
+middle or at the end of the document: any `k`), the wrapper raises without having executed a
+single FS step: empty trace, no instant at which a reader could see anything else, directory
+literally unchanged — so no temp can be left behind and the destination is untouched. -/
+theorem C08_serialise_before_temp (loopW : Bool) (retries : Nat) (dest r : Name) (k : Nat) (fs : Dir)
+    (σ : List Outcome) :
+    (writeSerialised loopW retries dest r (.contentFail k) fs σ).status = .raised ∧
+    (writeSerialised loopW retries dest r (.contentFail k) fs σ).trace = [] ∧
+    (writeSerialised loopW retries dest r (.contentFail k) fs σ).hist = [] ∧
+    (writeSerialised loopW retries dest r (.contentFail k) fs σ).fs = fs := by
+  simp [writeSerialised]
+
+/-- **No temp left for every way the wrapper can fail** (content failure or any scripted I/O
+failure whose own `exists`/`unlink` calls worked): a raise leaves the directory exactly as it was;
+and the `noTempB` monitor holds of every run. -/
+theorem C08_wrapper_no_temp_on_any_failure (retries : Nat) (hr : 0 < retries) (dest r : Name) (s : Ser)
+    (fs : Dir) (σ : List Outcome) (hfresh : getF fs (tmpName dest r) = none)
+    (h : (writeSerialised true retries dest r s fs σ).status = .raised)
+    (hw : cleanupWorked (writeSerialised true retries dest r s fs σ).trace = true) :
+    ∀ n, getF (writeSerialised true retries dest r s fs σ).fs n = getF fs n := by
+  cases s with
+  | contentFail k => intro n; simp [writeSerialised]
+  | done data =>
+    simp only [writeSerialised] at h hw ⊢
+    exact C08_no_temp_on_error retries hr dest r data fs σ hfresh h hw
+
+theorem C08_wrapper_no_temp_monitor (retries : Nat) (hr : 0 < retries) (dest r : Name) (s : Ser)
+    (fs : Dir) (σ : List Outcome) (hfresh : getF fs (tmpName dest r) = none) :
+    noTempB (writeSerialised true retries dest r s fs σ).status (writeSerialised true retries dest r s fs σ).trace
+      (keys fs) dest (keys (writeSerialised true retries dest r s fs σ).fs) = true := by
+  cases s with
+  | contentFail k =>
+    simp only [writeSerialised, fin_status, fin_trace, fin_fs, noTempB]
+    simp [cleanupWorked]
+    intro x hx; exact Or.inr hx
+  | done data =>
+    simp only [writeSerialised]
+    exact C08_no_temp_monitor retries hr dest r data fs σ hfresh
+
+/-- The wrapper is all-or-nothing at every instant for every serialisation outcome and script. -/
+theorem C08_wrapper_reader (retries : Nat) (hr : 0 < retries) (dest r : Name) (s : Ser) (fs : Dir)
+    (σ : List Outcome) :
+    ∀ d ∈ (writeSerialised true retries dest r s fs σ).hist ++ [(writeSerialised true retries dest r s fs σ).fs],
+      getF d dest = getF fs dest ∨ ∃ data, s = .done data ∧ getF d dest = some data := by
+  cases s with
+  | contentFail k => intro d hd; simp [writeSerialised] at hd; subst hd; exact Or.inl rfl
+  | done data =>
+    intro d hd
+    simp only [writeSerialised] at hd
+    rcases C08_reader retries hr dest r data fs σ d hd with h | h
+    · exact Or.inl h
+    · exact Or.inr ⟨data, rfl, h⟩
+
+example : (writeSerialised true 80 [1] [2] (.contentFail 27000) [([1], [5])] [.ok, .crash]).fs = [([1], [5])] := by decide
+example : (writeSerialised true 80 [1] [2] (.done [7]) [([1], [5])] []).fs = [([1], [7])] := by decide
+
 /-! ## Callers: body + best-effort sidecar (`_write_lines`, `write_snapshot`) -/
 
 /-- **Body and sidecar are each all-or-nothing at every instant** of a body-then-sidecar write,
